@@ -17,7 +17,8 @@ package finisher
 //@ func (*finisher).worker
 //@   property C01
 //@   attr hooked inputCh,sourceProducedCh,sourceFinishedCh,MarkAsFinished,ReceiveFeedback
-//@   attr cancellable @C03 inputCh
+//@   attr cancellable @C03 inputCh,ResumeCh
+//@   replay c03_stopPaused_finisher:cancellable:ResumeCh
 //@   attr assume-pre MarkAsFinished,MarkAsFinished:owns,ReceiveFeedback,ReceiveFeedback:owns
 //@   requires f != nil
 //@   local nRecv int = 0
